@@ -303,6 +303,9 @@ def correspond(ctx):
            'distribution': dict(dist, **{'decision/' + k: v for k, v in kinds_all.items()}),
            'samples': [{k: (v if k != 'points' else v[:4]) for k, v in m.items() if k != 'python'} for m in meta[:2]], 'kinds': {'hand_models': 1}}
     if rr['failing']: out['first_disagreement'] = [meta[i] for i in rr['failing'][:2]]
+    # the parts of the numeric core that are also REGENERATED from the source (Gen/Fit.v; equal to the hand model by Proofs/Bridge.v)
+    kernels.merge_cross_check(out, 'C14', ['curvefitter_B0', 'curvefitter_B1', 'curvefitter_B2', 'curvefitter_B3', 'CurveFit_computeHook',
+                                           'CurveFit_estimateBi', 'CurveFit_chordLengthParameterize'], ctx.n(25, 300), rng)
     return out
 
 
